@@ -44,6 +44,43 @@ def _unique_stable_solution(A1, A2, b) -> bool:
     return bool(unstable.sum() == k and stable.sum() == 2 * k)
 
 
+def measurement_cross(model: dict, params: dict) -> np.ndarray:
+    """Fc[j, l] = coefficient of measurement variable l in the measurement equation of variable j (parameters fJ_L)."""
+    m = len(model["mnames"])
+    Fc = np.zeros((m, m))
+    for j in range(m):
+        for l in range(m):
+            f = params.get(f"f{j+1}_{l+1}")
+            if f is not None:
+                Fc[j, l] = f
+    return Fc
+
+
+def measurement_steady(model: dict, params: dict, steady: dict, change: dict) -> None:
+    """Steady levels and steady changes of the measurement variables, in closed form from the parameters: the
+    measurement block  y = c + Dl xi + Fc y (+ w)  (equation space: logs of log-variables) is solved for y; the
+    transition variables' entries of `steady` / `change` are given, the measurement variables' are written."""
+    tnames, tlog, mnames, mlog = model["tnames"], model["tlog"], model["mnames"], model["mlog"]
+    m = len(mnames)
+    val = np.zeros(m); chg = np.zeros(m)
+    for j in range(m):
+        val[j] = params[f"c{j+1}"]
+        for i, tn in enumerate(tnames):
+            d = params.get(f"d{j+1}_{i+1}")
+            if d is None:
+                continue
+            val[j] += d * (math.log(steady[tn]) if tlog[i] else steady[tn])
+            chg[j] += d * change.get(tn, 0.0)
+    Fc = measurement_cross(model, params)
+    if Fc.any():
+        A = np.eye(m) - Fc
+        val = np.linalg.solve(A, val); chg = np.linalg.solve(A, chg)
+    for j, nm in enumerate(mnames):
+        if abs(chg[j]) > 1e-15:
+            change[nm] = float(chg[j])
+        steady[nm] = math.exp(float(val[j])) if mlog[j] else float(val[j])
+
+
 def gen_model(rng) -> dict:
     """A random stationary model: k transition variables (some in logs, lags up to 2, optional lag
     identities), m measurement variables (some in logs, own measurement shocks for most)."""
@@ -153,7 +190,7 @@ def gen_model(rng) -> dict:
     m = rng.choice([1, 2, 2, 3]) if len(tnames) > 1 else rng.choice([1, 1, 2])
     mnames = [f"o{j+1}" for j in range(m)]
     mlog = [rng.random() < 0.3 for _ in range(m)]
-    meqs, mshocks = [], []
+    mterms, mshocks = [], []
     for j in range(m):
         load = {}
         idx = list(range(len(tnames)))
@@ -165,24 +202,48 @@ def gen_model(rng) -> dict:
         c = _r(rng, -1.0, 1.0)
         params[f"c{j+1}"] = c
         terms = [f"c{j+1}"]
-        val = c
-        chg = 0.0
         for i, d in load.items():
             pn = f"d{j+1}_{i+1}"
             params[pn] = d
             nm = tnames[i]
             terms.append(f"{pn}*{'log(' + nm + ')' if tlog[i] else nm}")
-            val += d * (math.log(steady[nm]) if tlog[i] else steady[nm])
-            chg += d * change.get(nm, 0.0)
-        if chg:
-            change[mnames[j]] = chg
         own = rng.random() < 0.8 or (j > 0 and len(mshocks) < j)      # at most one equation without its own shock
         if own:
             mshocks.append(f"w{j+1}")
             terms.append(f"w{j+1}")
+        mterms.append(terms)
+    # measurement equations that refer to OTHER measurement variables (o2 = c2 + d*x + f2_1*o1 + w2): the Jacobian F of
+    # the measurement block w.r.t. the measurement variables is then neither diagonal nor symmetric.  In about a third
+    # of the models with m >= 2; the choices are drawn from a stream of their own (derived from the model text), so that
+    # the other dimensions of the generated cases are what they were before this dimension existed.
+    import random as _random, zlib as _zlib
+    crng = _random.Random(_zlib.crc32(repr((sorted(params.items()), mterms)).encode()))
+    if m >= 2 and crng.random() < 0.4:
+        for _ in range(20):
+            cross = {}
+            for j in range(m):
+                if crng.random() < 0.6:
+                    l = crng.choice([x for x in range(m) if x != j])
+                    cross[(j, l)] = round(crng.uniform(0.2, 0.9), 2) * crng.choice([1, 1, -1])
+            if not cross:
+                j = crng.randrange(1, m); cross[(j, crng.randrange(j))] = round(crng.uniform(0.2, 0.9), 2)
+            Fc = np.zeros((m, m))
+            for (j, l), f in cross.items():
+                Fc[j, l] = f
+            if abs(np.linalg.det(np.eye(m) - Fc)) > 0.3 and not np.allclose(Fc, Fc.T):
+                break
+        else:
+            cross = {}
+        for (j, l), f in sorted(cross.items()):
+            pn = f"f{j+1}_{l+1}"
+            params[pn] = f
+            mterms[j].insert(-1 if mterms[j][-1].startswith("w") else len(mterms[j]),
+                             f"{pn}*{'log(' + mnames[l] + ')' if mlog[l] else mnames[l]}")
+    meqs = []
+    for j in range(m):
         lhs = f"log({mnames[j]})" if mlog[j] else mnames[j]
-        meqs.append(f"{lhs} = {' + '.join(terms)};")
-        steady[mnames[j]] = math.exp(val) if mlog[j] else val
+        meqs.append(f"{lhs} = {' + '.join(mterms[j])};")
+    measurement_steady({"tnames": tnames, "tlog": tlog, "mnames": mnames, "mlog": mlog}, params, steady, change)
     logs = [n for n, lg in zip(tnames, tlog) if lg] + [n for n, lg in zip(mnames, mlog) if lg]
     src = "!transition-variables\n  " + ", ".join(tnames) + "\n"
     if shocks:
@@ -1141,6 +1202,16 @@ def equation_residuals(case: dict, box, span, deviation: bool, steady_db):
                 d = P.get(f"d{j+1}_{i+1}")
                 if d is not None:
                     rhs += d * dev(tn, t)
+            skip = False
+            for l, on in enumerate(model["mnames"]):
+                f = P.get(f"f{j+1}_{l+1}")           # another measurement variable in this equation
+                if f is not None:
+                    if not case["mask"][l][t]:
+                        skip = True                  # ... which is not observed in t (the filter reports measurement
+                        break                        # variables on observed cells only): the equation cannot be evaluated
+                    rhs += f * dev(on, t)
+            if skip:
+                continue
             if f"w{j+1}" in model["mshocks"]:
                 rhs += X[f"w{j+1}"][t]
             meas[(nm, t)] = dev(nm, t) - rhs
@@ -1510,6 +1581,33 @@ def batch_reference(case: dict, sol: dict, pin: list[dict]) -> dict:
     return ref
 
 
+def generated_measurement_block(case: dict, sol: dict) -> tuple:
+    """(Za, H, D) of the observation equation  y_t = Za alpha_t + D + H w_t  derived from the measurement equations AS
+    GENERATED (gen_model: y = c + Dl xi + Fc y + S w in equation space, solved for y), not from the solution object's
+    Z / H / D; only the similarity transform Ua and the ordering of the vectors are taken from the solution."""
+    model = case["model"]
+    P = model["params"]
+    ynames, wnames, xi = sol["y_names"], sol["w_names"], sol["xi_tokens"]
+    m = len(ynames)
+    col = {nm: i for i, (nm, sh) in enumerate(xi) if sh == 0}
+    Dl = np.zeros((m, len(xi))); S = np.zeros((m, len(wnames))); c = np.zeros(m); Fc = np.zeros((m, m))
+    for r, yn in enumerate(ynames):
+        j = model["mnames"].index(yn)
+        c[r] = P[f"c{j+1}"]
+        for i, tn in enumerate(model["tnames"]):
+            d = P.get(f"d{j+1}_{i+1}")
+            if d is not None:
+                Dl[r, col[tn]] = d
+        for l, on in enumerate(model["mnames"]):
+            f = P.get(f"f{j+1}_{l+1}")
+            if f is not None:
+                Fc[r, ynames.index(on)] = f
+        if f"w{j+1}" in wnames:
+            S[r, wnames.index(f"w{j+1}")] = 1.0
+    A = np.eye(m) - Fc
+    return np.linalg.solve(A, Dl) @ sol["Ua"], np.linalg.solve(A, S), np.linalg.solve(A, c)
+
+
 def public_solution(m) -> dict:
     sol = m.get_solution()
     vec = m._get_dynamic_solution_vectors()
@@ -1553,6 +1651,9 @@ def falsify_c03_case(case: dict, tol=1e-7) -> list[Failure]:
     sol["db"], sol["span"] = db, span
     sol["v_impact"] = anticipated_impact(case, sol)
     pin = period_inputs(case, sol)
+    # the observation equation of the reference comes from the generated measurement equations, not from the Z/H/D of
+    # the solution object (a wrongly solved measurement block then shows as a difference from exact conditioning)
+    sol["Za"], sol["H"], sol["D"] = generated_measurement_block(case, sol)
     try:
         ref = batch_reference(case, sol, pin)
     except np.linalg.LinAlgError:
